@@ -6,7 +6,7 @@ the enclosing context and may contain calls -- sits at a position that is NOT an
 
   assignment      `x = probe`, `x: T = probe`, `x += probe`, annotated assignment without a value
   place           x,  xs[probe],  xs[probe].a,  xs[probe][i],  xs[i][probe]   read as an expression
-  target          xs[probe] = v   (the index expression of an assignment target is evaluated as well)
+  target          xs[probe] = v,  xs[probe], y = v, w   (the index expression of an assignment target is evaluated as well)
   modifier        with control(c0, probe): ...   /   with power(probe): ...    nested in the checked block
 
 Specification, for every context flag set F:  an assignment or a subscripted place is rejected (GuppyError) iff Dagger is in F;
@@ -121,6 +121,9 @@ def run(ctx: Ctx, dom: FlagDomain) -> bool:
         yield "xs[0][probe]", "subscript", N("Expr", value=pn(_sub(_sub(_var(), const(), 1), p, 2))), p
         p = probe()
         yield "xs[probe] = 0", "assignment", N("Assign", targets=[pn(_sub(_var(), p, 1))], value=const(), _order=("targets", "value")), p
+        p = probe()
+        yield "xs[probe], y = 0, 1", "assignment", N("Assign", targets=[N("Tuple", elts=[pn(_sub(_var(), p, 1)), pn(_var("y"))], _order=("elts",))],
+                                                      value=N("Tuple", elts=[const(), const()], _order=("elts",)), _order=("targets", "value")), p
         for which in ("control", "power"):
             p = probe()
             # (the CFG builder creates `Control(call, call.args)`: the list of control arguments IS the argument list of the raw call, and
@@ -152,7 +155,7 @@ def run(ctx: Ctx, dom: FlagDomain) -> bool:
               {"cases": n, "flag_bits": dom.members, "counterexamples": bad_rej[:4], "n_counterexamples": len(bad_rej)},
               "the per-block pass does not reject exactly the assignments / subscripted places of dagger contexts")
     groups = (("assigned-values-are-visited", ("x = probe", "x: T = probe", "x += probe"), "the assigned value of an assignment"),
-              ("index-expressions-of-subscripts-are-visited", ("xs[probe]", "xs[probe].a", "xs[probe][0]", "xs[0][probe]", "xs[probe] = 0"),
+              ("index-expressions-of-subscripts-are-visited", ("xs[probe]", "xs[probe].a", "xs[probe][0]", "xs[0][probe]", "xs[probe] = 0", "xs[probe], y = 0, 1"),
                "the index expression of a subscripted place or assignment target (stored in the place, not among the children of the node)"),
               ("arguments-of-nested-modifiers-are-visited", ("with control(probe): ...", "with power(probe): ..."),
                "the argument of a nested control/power modifier (evaluated in the enclosing context)"))
